@@ -12,7 +12,7 @@ CHECK = {
              quick={"checks": 100, "shards": 1, "cap": 900, "steps": 25},
              thorough={"checks": 500, "shards": 16, "cap": 3000, "steps": 50}),
         unit("leases-namespaces", "vault", ["vault/c05ns_test.go"], "^TestVerif_C05_LeasesNamespaces$",
-             quick={"checks": 70, "shards": 1, "cap": 900, "steps": 30},
-             thorough={"checks": 400, "shards": 16, "cap": 3000, "steps": 50}),
+             quick={"checks": 60, "shards": 1, "cap": 900, "steps": 25},
+             thorough={"checks": 300, "shards": 16, "cap": 3000, "steps": 40}),
     ],
 }
